@@ -260,9 +260,6 @@ func cmdCheck(args []string) int {
 	}
 	all = append(all, untranslatable...)
 	solveS := time.Since(tSolve).Seconds()
-	if len(coverFail) > 0 {
-		return engineErr("vacuity: %s", strings.Join(coverFail, "; "))
-	}
 
 	violations := 0
 	discharged := 0
@@ -375,6 +372,11 @@ func cmdCheck(args []string) int {
 		*prop, *tier, len(fnReports), counted, discharged, len(knownPrinted), violations, len(covers), time.Since(t0).Seconds(), loadS, solveS)
 	if violations > 0 {
 		return 1
+	}
+	// vacuity guard (only meaningful when every obligation was discharged: after a failed obligation the code behind it is
+	// cut off by the assumption of the failed assertion, and its return points are then legitimately unreachable)
+	if len(coverFail) > 0 {
+		return engineErr("vacuity: %s", strings.Join(coverFail, "; "))
 	}
 	return 0
 }
